@@ -31,14 +31,28 @@ func (x *Exec) inputTerms() []string {
 			out = append(out, s)
 		}
 	}
+	add("str_empty")
+	add("bytes_nil")
+	var strTerms []string
+	type mapRef struct {
+		term string
+		mt   *types.Map
+	}
+	var maps []mapRef
 	var walk func(t types.Type, term string, depth int)
 	walk = func(t types.Type, term string, depth int) {
 		t = types.Unalias(t)
 		switch u := t.Underlying().(type) {
+		case *types.Map:
+			add(term)
+			if x.tm.SortOf(u.Key()) == SStr && x.tm.SortOf(u.Elem()) == SStr {
+				maps = append(maps, mapRef{term, u})
+			}
 		case *types.Basic:
 			add(term)
 			if u.Info()&types.IsString != 0 {
 				add("(str_len " + term + ")")
+				strTerms = append(strTerms, term)
 			}
 		case *types.Pointer:
 			add(term)
@@ -80,6 +94,19 @@ func (x *Exec) inputTerms() []string {
 	}
 	for _, p := range x.fn.Params {
 		walk(p.Type(), "p_"+sanitize(p.Name()), 0)
+	}
+	x.replayStrTerms = strTerms
+	for _, m := range maps {
+		h, ok := x.initHeaps[x.mapHeapName(m.mt)]
+		if !ok {
+			continue
+		}
+		mv := "(select " + h.S + " " + m.term + ")"
+		for _, k := range strTerms {
+			add("(select (mp_has " + mv + ") " + k + ")")
+			add("(select (mp_val " + mv + ") " + k + ")")
+			add("(str_len (select (mp_val " + mv + ") " + k + "))")
+		}
 	}
 	for _, in := range x.b.inputs {
 		add(in)
@@ -151,6 +178,9 @@ func (g *genCtx) typeStr(t types.Type) string {
 func (g *genCtx) strFor(abs string, n int64) string {
 	if s, ok := g.strVals[abs]; ok {
 		return s
+	}
+	if abs != "" && (abs == g.model["str_empty"] || abs == g.model["bytes_nil"]) {
+		return ""
 	}
 	id := len(g.strVals)
 	var s string
@@ -238,7 +268,7 @@ func (g *genCtx) expr(t types.Type, term string, depth int) string {
 				}
 				ft := "(select " + h.S + " " + term + ")"
 				switch f.Type().Underlying().(type) {
-				case *types.Struct, *types.Interface, *types.Map, *types.Chan, *types.Signature:
+				case *types.Struct, *types.Interface, *types.Chan, *types.Signature:
 					continue
 				}
 				e := g.expr(f.Type(), ft, depth+1)
@@ -301,7 +331,48 @@ func (g *genCtx) expr(t types.Type, term string, depth int) string {
 	case *types.Signature:
 		return g.fail("function-typed input")
 	case *types.Map:
-		return g.fail("map-typed input")
+		if g.x.tm.SortOf(u.Key()) != SStr || g.x.tm.SortOf(u.Elem()) != SStr {
+			return g.fail("map-typed input")
+		}
+		if !has || val == "0" {
+			return "nil"
+		}
+		h, ok := g.x.initHeaps[g.x.mapHeapName(u)]
+		if !ok {
+			return g.typeStr(t0) + "{}"
+		}
+		mv := "(select " + h.S + " " + term + ")"
+		var entries []string
+		seenKey := map[string]bool{}
+		for _, k := range g.x.replayStrTerms {
+			if g.model["(select (mp_has "+mv+") "+k+")"] != "true" {
+				continue
+			}
+			kabs, ok := g.model[k]
+			if !ok || seenKey[kabs] {
+				continue
+			}
+			seenKey[kabs] = true
+			kl := int64(0)
+			if n, ok := modelInt(g.model["(str_len "+k+")"]); ok && n.IsInt64() {
+				kl = n.Int64()
+			}
+			vt := "(select (mp_val " + mv + ") " + k + ")"
+			vabs := g.model[vt]
+			vl := int64(0)
+			if n, ok := modelInt(g.model["(str_len "+vt+")"]); ok && n.IsInt64() {
+				vl = n.Int64()
+			}
+			if kl > 1<<12 || vl > 1<<12 {
+				return g.fail("map entry too long in model")
+			}
+			if vabs == g.model["bytes_nil"] {
+				entries = append(entries, fmt.Sprintf("%q: nil", g.strFor(kabs, kl)))
+			} else {
+				entries = append(entries, fmt.Sprintf("%q: []byte(%q)", g.strFor(kabs, kl), g.strFor(vabs, vl)))
+			}
+		}
+		return fmt.Sprintf("%s{%s}", g.typeStr(t0), strings.Join(entries, ", "))
 	}
 	return g.fail("input type " + t.String())
 }
